@@ -6,5 +6,6 @@ CONSTANTS
   Header = "first"
   Merge = "grid"
   Sep = "each"
+  Dedup = "none"
 POSTCONDITION TraceAccepted
 CHECK_DEADLOCK FALSE
